@@ -586,6 +586,18 @@ func runC02C03Binary(t *testing.T, prop string) {
 				checkLoadOrder(res, root.SplitN("loadorder", i), 120000+i)
 			}(i)
 		}
+		for i := 0; i < vlib.Scale(4, 24); i++ {
+			if i%nshards != shard {
+				continue
+			}
+			lwg.Add(1)
+			go func(i int) {
+				defer lwg.Done()
+				lsem <- struct{}{}
+				defer func() { <-lsem }()
+				checkOddNAT(res, root.SplitN("oddnat", i), 130000+i)
+			}(i)
+		}
 		lwg.Wait()
 		res.RequireObs("porcupine_ok", int64(len(hs)*6/10))
 		res.RequireObs("loadorder_populations", 4)
